@@ -41,6 +41,8 @@ pub fn render(s: &Value, marker: &Path) -> String {
             "OUT" => "Res2 =",
             "lbl" => ":lbl2",
             "LBL" => ":Lbl2",
+            "OUTN" => "Ünit2 =",
+            "LBLN" => ":Étape2",
             _ => "ECHO x",
         });
         t.push_str(&line);
@@ -145,8 +147,8 @@ pub fn record(args: &[String]) {
     let mut s = Summary::new();
     for _ in 0..n {
         let len = 1 + r.below(10);
-        let mut st: Vec<&str> = (0..len).map(|_| *r.pick(&["echo", "echo", "echo", "echo", "xecho", "crash", "exit3", "exit256", "exit0", "badquote", "unknowncmd", "ECHO", "none", "out", "out", "OUT", "lbl", "lbl", "LBL", "pre"])).collect();
-        if ["out", "OUT", "lbl", "LBL", "pre"].contains(&st[0]) { st[0] = "none"; }
+        let mut st: Vec<&str> = (0..len).map(|_| *r.pick(&["echo", "echo", "echo", "echo", "xecho", "crash", "exit3", "exit256", "exit0", "badquote", "unknowncmd", "ECHO", "none", "out", "out", "OUT", "lbl", "lbl", "LBL", "pre", "OUTN", "LBLN"])).collect();
+        if ["out", "OUT", "lbl", "LBL", "pre", "OUTN", "LBLN"].contains(&st[0]) { st[0] = "none"; }
         let missing = r.chance(1, 15);
         let script = json!({"st": st, "label": *r.pick(&["none", "lower", "Upper"]), "out": *r.pick(&["none", "none", "lower", "Upper"]), "missing": missing});
         let form = if missing { *r.pick(&["file", "-l", "--lint"]) } else { *r.pick(&["file", "file", "-e", "--eval", "-l", "--lint", "--version", "--help", "-h"]) };
